@@ -3,8 +3,20 @@ package exec
 import (
 	"sort"
 
+	"github.com/ChrisTrenkamp/xsel/node"
 	"github.com/ChrisTrenkamp/xsel/store"
 )
+
+// isAttributeOrNamespace reports whether the cursor is an attribute or
+// namespace node.  These have a parent element but are not among its children.
+func isAttributeOrNamespace(cursor store.Cursor) bool {
+	switch cursor.Node().(type) {
+	case node.Namespace, node.Attribute:
+		return true
+	}
+
+	return false
+}
 
 func unique(s []store.Cursor) []store.Cursor {
 	if len(s) == 0 {
@@ -142,13 +154,15 @@ func selectFollowing(nodeSet NodeSet) Result {
 }
 
 func appendFollowing(cursor store.Cursor, result []store.Cursor) []store.Cursor {
-	parent := cursor.Parent()
-
-	if parent.Pos() == 0 {
+	if cursor.Pos() == 0 {
 		return result
 	}
 
-	found := false
+	parent := cursor.Parent()
+
+	// Attribute and namespace nodes come before the children of their
+	// element in document order, so all of the children follow them.
+	found := isAttributeOrNamespace(cursor)
 
 	for _, i := range parent.Children() {
 		if i.Pos() == cursor.Pos() {
@@ -176,11 +190,11 @@ func selectFollowingSibling(nodeSet NodeSet) Result {
 }
 
 func appendFollowingSibling(cursor store.Cursor, result []store.Cursor) []store.Cursor {
-	parent := cursor.Parent()
-
-	if parent.Pos() == 0 {
+	if cursor.Pos() == 0 || isAttributeOrNamespace(cursor) {
 		return result
 	}
+
+	parent := cursor.Parent()
 
 	children := parent.Children()
 	start := 0
@@ -229,10 +243,14 @@ func selectPreceding(nodeSet NodeSet) Result {
 }
 
 func appendPreceding(cursor store.Cursor, result []store.Cursor) []store.Cursor {
+	if cursor.Pos() == 0 {
+		return result
+	}
+
 	parent := cursor.Parent()
 
-	if parent.Pos() == 0 {
-		return result
+	if isAttributeOrNamespace(cursor) {
+		return appendPreceding(parent, result)
 	}
 
 	found := false
@@ -264,11 +282,11 @@ func selectPrecedingSibling(nodeSet NodeSet) Result {
 }
 
 func appendPrecedingSibling(cursor store.Cursor, result []store.Cursor) []store.Cursor {
-	parent := cursor.Parent()
-
-	if parent.Pos() == 0 {
+	if cursor.Pos() == 0 || isAttributeOrNamespace(cursor) {
 		return result
 	}
+
+	parent := cursor.Parent()
 
 	children := parent.Children()
 	end := 0
